@@ -162,6 +162,19 @@ class Adversary(InstructionGenerator):
                     continue
                 args = {"destination": pos.link_id}
             out.append({"k": "instr", "g": self.index, "i": kind, "v": vid, "a": args})
+        # release wave: every vehicle charging on one plug type of one station is told to leave in the same step, so that
+        # several plugs free at once while vehicles wait (a queue is then served several places deep in one step)
+        if p.get("p_wave") and rng.random() < p["p_wave"]:
+            groups = {}
+            for vid in vids:
+                v = sim.vehicles[vid]
+                if act(v) == "ChargingStation":
+                    groups.setdefault((v.vehicle_state.station_id, v.vehicle_state.charger_id), []).append(vid)
+            groups = {g: m for g, m in groups.items() if len(m) >= 2}
+            if groups:
+                g = rng.choice(sorted(groups))
+                for vid in groups[g]:
+                    out.append({"k": "instr", "g": self.index, "i": "Idle", "v": vid, "a": {}})
         return out
 
     # -- InstructionGenerator --------------------------------------------------------------------------
